@@ -186,6 +186,31 @@ pub fn c02_s4_two_collectors() {
     std::mem::forget(h);
 }
 
+/// S5: one observation completed beforehand, then T1 collect ‖ T2 collect: collectors exclude
+/// each other; each snapshot describes exactly the observation (count, sum and bucket together),
+/// and the totals afterwards are unchanged.
+#[cfg_attr(kani, kani::proof, kani::unwind(6))]
+pub fn c02_s5_two_collectors_after_observation() {
+    let h = hist(vec![1.0]);
+    register(&h, 8);
+    let a = small();
+    h.core.observe(a);
+    vs::begin_threads();
+    vs::start_thread();
+    let s1 = collect(&h);
+    vs::start_thread();
+    let s2 = collect(&h);
+    let waited = vs::cas_fails(1) + vs::cas_fails(2);
+    vs::assume_consistent();
+    let f1 = describes(&s1, &[a], &[true], 1.0, f64::NAN);
+    let f2 = describes(&s2, &[a], &[true], 1.0, f64::NAN);
+    assert!(f1 && f2, "C02 each snapshot describes one set of observations (count, sum and buckets agree), including every observation completed before the collection started");
+    assert!(h.get_sample_count() == 1 && h.get_sample_sum() == a, "C03 nothing is lost or counted twice across collections");
+    vcover!(before(s2.re, 2, s1.rb, 1) || s2.re <= s1.rb, "c02.s5: second thread's collect ran first");
+    vcover!(waited == 0, "c02.s5: no collector had to wait");
+    std::mem::forget(h);
+}
+
 /// C03: T1 observe(a) ‖ T2 local batch {b, c} flush ‖ T3 three collects; then quiescent checks.
 #[cfg_attr(kani, kani::proof, kani::unwind(6))]
 pub fn c03_batch_flush_three_collects() {
@@ -226,6 +251,7 @@ pub fn dispatch(name: &str) -> Option<fn()> {
         "c02_s2_two_observes_prefix_closed" => c02_s2_two_observes_prefix_closed,
         "c02_s3_two_observers_vs_collect" => c02_s3_two_observers_vs_collect,
         "c02_s4_two_collectors" => c02_s4_two_collectors,
+        "c02_s5_two_collectors_after_observation" => c02_s5_two_collectors_after_observation,
         "c03_batch_flush_three_collects" => c03_batch_flush_three_collects,
         _ => return None,
     })
